@@ -25,6 +25,7 @@ import (
 	wrapping "github.com/hashicorp/go-kms-wrapping/v2"
 	"github.com/hashicorp/go-kms-wrapping/v2/aead"
 	"google.golang.org/protobuf/proto"
+	"google.golang.org/protobuf/types/known/wrapperspb"
 )
 
 // NewWrapper builds an AEAD wrapper with a deterministic key derived from id.
@@ -235,6 +236,10 @@ func policyPayload(v *PolicyVec, canary string, kind int) (reflect.Value, reflec
 		leafT = reflect.TypeOf("")
 	case 1:
 		leafT = reflect.TypeOf([]byte(nil))
+	case 3:
+		leafT = reflect.TypeOf(&wrapperspb.StringValue{})
+	case 4:
+		leafT = reflect.TypeOf(&wrapperspb.BytesValue{})
 	default:
 		leafT = reflect.TypeOf([]string(nil))
 	}
@@ -249,6 +254,10 @@ func policyPayload(v *PolicyVec, canary string, kind int) (reflect.Value, reflec
 		p.Elem().Field(0).SetString(canary)
 	case 1:
 		p.Elem().Field(0).SetBytes([]byte(canary))
+	case 3:
+		p.Elem().Field(0).Set(reflect.ValueOf(&wrapperspb.StringValue{Value: canary}))
+	case 4:
+		p.Elem().Field(0).Set(reflect.ValueOf(&wrapperspb.BytesValue{Value: []byte(canary)}))
 	default:
 		p.Elem().Field(0).Set(reflect.ValueOf([]string{canary, canary + "#2"}))
 	}
@@ -258,6 +267,18 @@ func policyPayload(v *PolicyVec, canary string, kind int) (reflect.Value, reflec
 }
 
 func leafStrings(v reflect.Value) []string {
+	if v.Kind() == reflect.Ptr {
+		if v.IsNil() {
+			return nil
+		}
+		switch w := v.Interface().(type) {
+		case *wrapperspb.StringValue:
+			return []string{w.Value}
+		case *wrapperspb.BytesValue:
+			return []string{string(w.Value)}
+		}
+		return leafStrings(v.Elem())
+	}
 	switch v.Kind() {
 	case reflect.String:
 		return []string{v.String()}
@@ -286,7 +307,7 @@ func RunPolicy(file string, seed int64) (*Report, error) {
 		}
 		rep.Vectors++
 		n++
-		kind := int((int64(n) + seed) % 3)
+		kind := int((int64(n) + seed) % 5)
 		canary := fmt.Sprintf("CANARY-%d-%d", seed, n)
 		f := &encrypt.Filter{}
 		switch v.V.Wr {
@@ -311,7 +332,7 @@ func RunPolicy(file string, seed int64) (*Report, error) {
 			return nil
 		}
 		// C10: the input is never modified
-		if !reflect.DeepEqual(in.Elem().Interface(), snap.Elem().Interface()) {
+		if fmt.Sprint(leafStrings(in.Elem().Field(0)), in.Elem().Field(1), in.Elem().Field(2)) != fmt.Sprint(leafStrings(snap.Elem().Field(0)), snap.Elem().Field(1), snap.Elem().Field(2)) {
 			rep.mm(Mismatch{Props: []string{"C10"}, What: "Process modified the payload it was given", Vector: v.V, Expected: fmt.Sprint(snap.Elem().Interface()), Observed: fmt.Sprint(in.Elem().Interface())})
 		}
 		switch v.Exp.Res {
